@@ -23,6 +23,9 @@ def gen_block(rng):
         # the documented pattern: shutdown first, arming flag second, on one flag
         st = rng.choice([1, 42, 130, 255])
         regs = ["shutdown %d b0" % st, "flag b0"] + [r for r in regs if not r.endswith("b0")]
+    if rng.random() < 0.35:
+        # a raw action that raises the signal again from inside the delivery, somewhere in the list
+        regs.insert(rng.randint(0, len(regs)), "reraiser")
     ops += regs
     for _ in range(rng.randint(1, 7)):
         r = rng.random()
@@ -49,6 +52,7 @@ def monitor(block, impl):
     """the property on the implementation's own answers (independent of the model)"""
     probs = []
     flags, regs = {}, []          # flag -> value ; registered actions in order
+    reraise = False
     out = [l for l in impl]
     pos = 0
     dead = None
@@ -65,16 +69,23 @@ def monitor(block, impl):
             regs.append(("shut", w[2], int(w[1]))); flags.setdefault(w[2], 0)
         elif w[0] == "set":
             flags[w[1]] = (1 if int(w[2]) else 0) if w[1][0] == "b" else int(w[2])
+        elif w[0] == "reraiser":
+            reraise = True
         elif w[0] == "raise":
-            # what must happen
+            # what must happen: one delivery, or two back to back when a raw action raises the
+            # (blocked) signal again from inside the first
             cur = dict(flags)
             want_exit = None
-            for kind, f, v in regs:
-                if kind == "set":
-                    cur[f] = v
-                elif cur.get(f, 0) != 0:
-                    want_exit = v % 256
+            for _round in range(2 if reraise else 1):
+                for kind, f, v in regs:
+                    if kind == "set":
+                        cur[f] = v
+                    elif cur.get(f, 0) != 0:
+                        want_exit = v % 256
+                        break
+                if want_exit is not None:
                     break
+            reraise = False
             if want_exit is not None:
                 dead = want_exit
                 tail = out[pos:]
